@@ -439,17 +439,58 @@ static void run_cc1(int argc, char **argv, char *input, char *output) {
   run_subprocess(args);
 }
 
+static bool is_word_char(char c) {
+  return isalnum((unsigned char)c) || c == '_' || c == '$' || (unsigned char)c >= 0x80;
+}
+
+// Returns true if the spelling of `tok` written directly after the
+// spelling of `prev` could be read back as different tokens, e.g.
+// `-` `-`, `x` `y`, `1` `.`, `1e` `+`, `L` `"s"`, `.` `5` or `/` `*`.
+// Such pairs arise at the boundaries of macro expansions, where no
+// white space was written in the source.
+static bool may_fuse(Token *prev, Token *tok) {
+  static char *pairs[] = {
+    "++", "--", "->", "<<", ">>", "<=", ">=", "==", "!=", "&&", "||",
+    "+=", "-=", "*=", "/=", "%=", "&=", "|=", "^=", "##", "..", "//", "/*",
+  };
+
+  if (prev->len == 0 || tok->len == 0)
+    return false;
+
+  char a = prev->loc[prev->len - 1];
+  char b = tok->loc[0];
+  bool is_num = prev->kind == TK_NUM || prev->kind == TK_PP_NUM;
+
+  if (is_word_char(a) && is_word_char(b))
+    return true;
+  if (is_num && (b == '.' || (strchr("eEpP", a) && (b == '+' || b == '-'))))
+    return true;
+  if ((prev->kind == TK_IDENT || prev->kind == TK_KEYWORD) && (b == '"' || b == '\''))
+    return true;
+  if (a == '.' && isdigit((unsigned char)b))
+    return true;
+
+  for (int i = 0; i < sizeof(pairs) / sizeof(*pairs); i++)
+    if (a == pairs[i][0] && b == pairs[i][1])
+      return true;
+  return false;
+}
+
 // Print tokens to stdout. Used for -E.
 static void print_tokens(Token *tok) {
   FILE *out = open_file(opt_o ? opt_o : "-");
 
+  Token *prev = NULL;
   int line = 1;
   for (; tok->kind != TK_EOF; tok = tok->next) {
     if (line > 1 && tok->at_bol)
       fprintf(out, "\n");
-    if (tok->has_space && !tok->at_bol)
+    else if (tok->has_space && !tok->at_bol)
+      fprintf(out, " ");
+    else if (prev && !tok->at_bol && may_fuse(prev, tok))
       fprintf(out, " ");
     fprintf(out, "%.*s", tok->len, tok->loc);
+    prev = tok;
     line++;
   }
   fprintf(out, "\n");
